@@ -95,6 +95,11 @@ pub fn run(ctx: &Ctx) {
                 }
             }
         }
+        if let Some(t) = v["w25_js_text"].as_str() {
+            let di = v["setup"].as_u64().unwrap_or(0) as usize;
+            let (mut js, mut g) = (w25_js(di), w25_group(di));
+            w25_eval_js(&mut sess, &mut js, &mut g, di, t, v["markdown"].as_bool().unwrap_or(false));
+        }
         sess.nontrivial("replay-a");
         sess.nontrivial("replay-b");
         sess.finish("replay of one recorded input", false, json!({}));
@@ -311,6 +316,8 @@ pub fn run(ctx: &Ctx) {
             }
         }
     }
+    // w25: long lists, more configurations, the JS API as Markdown / per dialect + its fix-all clause, the CLI on other file types
+    w25_run(&mut sess, ctx, &mut rng);
     //    and a text search that the CLI still hands its lints to `remove_overlaps` before reporting them
     {
         let main = std::fs::read_to_string("/repo/harper-cli/src/main.rs").unwrap_or_default();
@@ -321,8 +328,404 @@ pub fn run(ctx: &Ctx) {
         sess.monitor("harper-cli/src/main.rs: linter.lint(&doc) … remove_overlaps(&mut lints) … Report::build, in this order (text search)", ok);
     }
     sess.finish(
-        "corpus; all lists of ≤4 spans with endpoints ≤3 (quick) / ≤4 (thorough), exhaustively; random lists of 2–24 spans (nested, touching, equal, zero-width, duplicated); span lists of real lints (all rules on) of rule-test sentences; harper_wasm::Linter::lint on sentences of > 40 words with several unknown / repeated words inside (disjoint, and = the model's remove_overlaps of the group's raw lints); the real harper-cli executable on texts with thrice-repeated words under 0 / 1 / 2 selected rules (message counts = remove_overlaps of the group's lints). Non-trivial = at least one lint dropped; distinct by the op line.",
+        "corpus; all lists of ≤4 spans with endpoints ≤3 (quick) / ≤4 (thorough), exhaustively; random lists of 2–24 spans (nested, touching, equal, zero-width, duplicated); span lists of real lints (all rules on) of rule-test sentences; harper_wasm::Linter::lint on sentences of > 40 words with several unknown / repeated words inside (disjoint, and = the model's remove_overlaps of the group's raw lints); the real harper-cli executable on texts with thrice-repeated words under 0 / 1 / 2 selected rules (message counts = remove_overlaps of the group's lints); w25: shuffled lists of 60–600 spans (nested chains, touching staircases with zero-width spans at the joints, many equal spans, one span over many disjoint ones, random) at offsets 0 / 2^31 / 2^40 / usize::MAX/4; span lists of real lints of Markdown and plain documents with every rule on in the four dialects (one with user words); harper_wasm::Linter::lint as Markdown and plain in four set-ups (dialects, import_words, every rule true) on texts with nested lints: sub-list of the group's lints = the model's remove_overlaps, pairwise disjoint, and one suggestion per reported lint applied by apply_suggestion from the last to the first = all substituted at once; the harper-cli executable on generated .md / .typ / .rs / .py / .lhs files with --dialect. Non-trivial = at least one lint dropped; distinct by the op line.",
         true,
         json!({"exhaustive_scope": format!("lists of ≤4 spans, endpoints ≤{}", maxe)}),
     );
+}
+
+// =============================================================================================
+// w25 additions — more list families and configurations for `eval`, the JS API as Markdown / in
+// every dialect / with imported words, the statement's last clause ("can all be fixed in one
+// pass, back to front, without the edits interfering") on what the JS API reports, and the CLI
+// on generated files of other languages and dialects.
+// =============================================================================================
+
+/// long lists and far-away coordinates (the sort key is `(start, !0 - end)`)
+fn w25_long_lists(sess: &mut Session, rng: &mut Rng, n: usize) {
+    for i in 0..n {
+        let len = rng.range(60, 300);
+        let base = match i % 4 {
+            0 => 0usize,
+            1 => 1usize << 31,
+            2 => 1usize << 40,
+            _ => usize::MAX / 4,
+        };
+        let mut l: Vec<(usize, usize)> = vec![];
+        match i % 5 {
+            // a chain of spans each nested in the one before
+            0 => {
+                for k in 0..len {
+                    l.push((base + k, base + 2 * len - k));
+                }
+            }
+            // a staircase of touching spans with zero-width spans at every joint
+            1 => {
+                for k in 0..len {
+                    l.push((base + 3 * k, base + 3 * k + 3));
+                    l.push((base + 3 * k + 3, base + 3 * k + 3));
+                }
+            }
+            // many equal spans
+            2 => {
+                for _ in 0..len {
+                    l.push((base + 5, base + 9));
+                }
+                l.push((base + 9, base + 12));
+            }
+            // one long span over many disjoint short ones (the C13r3 shape), then a tail
+            3 => {
+                l.push((base, base + 4 * len));
+                for k in 0..len {
+                    l.push((base + 4 * k + 1, base + 4 * k + 3));
+                }
+                l.push((base + 4 * len, base + 4 * len + 2));
+            }
+            // random
+            _ => {
+                let width = rng.range(20, 600);
+                for _ in 0..len {
+                    let s = rng.below(width);
+                    let e = if rng.chance(1, 4) { s } else { s + rng.below((width - s).min(30) + 1) };
+                    l.push((base + s, base + e));
+                }
+            }
+        }
+        // shuffled: the function sorts, the input order must not matter for the clauses
+        for k in (1..l.len()).rev() {
+            let j = rng.below(k + 1);
+            l.swap(k, j);
+        }
+        eval(sess, &l, "long-list");
+    }
+}
+
+const W25_SETUPS: [&str; 4] = ["American/default", "British/import_words", "Australian/default", "Canadian/every-rule-true"];
+const W25_WORDS: &[&str] = &["gardn", "Mornng", "o'clockish", "naïve"];
+
+fn w25_core_dialect(di: usize) -> Dialect {
+    [Dialect::American, Dialect::British, Dialect::Australian, Dialect::Canadian][di % 4]
+}
+
+fn w25_dict(di: usize) -> std::sync::Arc<harper_core::MergedDictionary> {
+    let mut d = harper_core::MergedDictionary::new();
+    d.add_dictionary(FstDictionary::curated());
+    let mut user = harper_core::MutableDictionary::new();
+    if di % 4 == 1 {
+        user.extend_words(W25_WORDS.iter().map(|w| (w.chars().collect::<harper_core::CharString>(), harper_core::WordMetadata::default())));
+    }
+    d.add_dictionary(std::sync::Arc::new(user));
+    std::sync::Arc::new(d)
+}
+
+/// the group whose raw lints the JS linter of setup `di` filters
+fn w25_group(di: usize) -> LintGroup {
+    let mut g = LintGroup::new_curated(w25_dict(di), w25_core_dialect(di));
+    g.config.fill_with_curated();
+    if di % 4 == 3 {
+        g.set_all_rules_to(Some(true));
+    }
+    g
+}
+
+fn w25_js(di: usize) -> harper_wasm::Linter {
+    use harper_wasm::{Dialect as WDialect, Linter as WLinter};
+    let mut js = WLinter::new([WDialect::American, WDialect::British, WDialect::Australian, WDialect::Canadian][di % 4]);
+    match di % 4 {
+        1 => js.import_words(W25_WORDS.iter().map(|w| w.to_string()).collect()),
+        3 => {
+            if let Ok(serde_json::Value::Object(m)) = serde_json::from_str::<serde_json::Value>(&js.get_lint_descriptions_as_json()) {
+                let all: serde_json::Map<String, serde_json::Value> = m.keys().map(|k| (k.clone(), serde_json::Value::Bool(true))).collect();
+                let _ = js.set_lint_config_from_json(serde_json::Value::Object(all).to_string());
+            }
+        }
+        _ => {}
+    }
+    js
+}
+
+/// One text through the JS API of setup `di`: (1) sub-list of the group's raw lints and = the
+/// model's `removeOverlaps` of them (K op `ro`), (2) pairwise disjoint, (3) one suggestion per
+/// reported lint applied by `apply_suggestion` from the last lint to the first = all of them
+/// substituted at once.
+fn w25_eval_js(sess: &mut Session, js: &mut harper_wasm::Linter, group: &mut LintGroup, di: usize, text: &str, markdown: bool) {
+    use harper_wasm::{Language, SuggestionKind};
+    let dict = w25_dict(di);
+    let raw = guarded(|| {
+        let doc = if markdown { Document::new_markdown_default(text, &dict) } else { Document::new_plain_english(text, &dict) };
+        group.lint(&doc)
+    });
+    let Ok(raw) = raw else {
+        sess.count("js2:core-lint-panicked(C01)");
+        return;
+    };
+    let Ok(out) = guarded(|| js.lint(text.to_string(), if markdown { Language::Markdown } else { Language::Plain })) else {
+        sess.count("js2:lint-panicked(C01)");
+        return;
+    };
+    sess.count(&format!("js2:{}:{}", if markdown { "markdown" } else { "plain" }, W25_SETUPS[di % 4]));
+    let input = json!({"w25_js_text": text, "setup": di % 4, "markdown": markdown, "spans": []});
+    let spans: Vec<(usize, usize)> = raw.iter().map(|l| (l.span.start, l.span.end)).collect();
+    let op = format!("ro {}", show(&mk(&spans)));
+    let mut used = vec![false; raw.len()];
+    let mut named = vec![];
+    let mut invented = None;
+    for l in &out {
+        let sp = l.span();
+        let m = l.message();
+        match (0..raw.len()).find(|&k| !used[k] && raw[k].span.start == sp.start && raw[k].span.end == sp.end && raw[k].message == m) {
+            Some(k) => {
+                used[k] = true;
+                named.push(format!("{}:{}:{}", sp.start, sp.end, k));
+            }
+            None => invented = Some((sp.start, sp.end)),
+        }
+    }
+    let case = sess.k(&op, format!("ok {}", named.join(" ")).trim_end());
+    sess.count("origin:js-api-w25");
+    let dropped = out.len() < raw.len();
+    if dropped {
+        sess.count("js2:with-drops");
+        sess.nontrivial(&format!("js2|{}|{}|{}", di % 4, markdown, text));
+    }
+    if let Some(sp) = invented {
+        sess.fail("js-invented", format!("Linter::lint ({}) reports {:?}, which is not a lint of the group", W25_SETUPS[di % 4], sp), input.clone(), Some(case));
+        return;
+    }
+    for a in 0..out.len() {
+        for b in a + 1..out.len() {
+            let (x, y) = (out[a].span(), out[b].span());
+            if x.start < y.end && y.start < x.end {
+                sess.fail("js-overlap", format!("harper_wasm::Linter::lint ({}, {}) reports [{},{}) and [{},{}), which share a character", W25_SETUPS[di % 4], if markdown { "Markdown" } else { "plain" }, x.start, x.end, y.start, y.end), input.clone(), Some(case));
+                return;
+            }
+        }
+    }
+    // (3) "can all be fixed in one pass, back to front, without the edits interfering"
+    let chars: Vec<char> = text.chars().collect();
+    let mut order: Vec<usize> = (0..out.len()).filter(|&i| out[i].suggestion_count() > 0).collect();
+    order.sort_by_key(|&i| (out[i].span().start, out[i].span().end));
+    let in_range = order.iter().all(|&i| out[i].span().start <= out[i].span().end && out[i].span().end <= chars.len());
+    let same_start = order.windows(2).any(|w| out[w[0]].span().start == out[w[1]].span().start);
+    if order.len() < 2 || !in_range || same_start {
+        sess.count("js2:fixall-not-applicable(<2 fixable lints, a span outside the text (C03), or two lints at one start)");
+        return;
+    }
+    // all at once, left to right, computed here
+    let mut want: Vec<char> = vec![];
+    let mut pos = 0;
+    for &i in &order {
+        let sp = out[i].span();
+        let s = &out[i].suggestions()[0];
+        let repl: Vec<char> = s.get_replacement_text().chars().collect();
+        want.extend_from_slice(&chars[pos..sp.start]);
+        match s.kind() {
+            SuggestionKind::Replace => want.extend(repl),
+            SuggestionKind::InsertAfter => {
+                want.extend_from_slice(&chars[sp.start..sp.end]);
+                want.extend(repl);
+            }
+            SuggestionKind::Remove => {}
+        }
+        pos = sp.end;
+    }
+    want.extend_from_slice(&chars[pos..]);
+    let want: String = want.into_iter().collect();
+    // one by one, from the last lint to the first, through the JS API
+    let got = guarded(|| {
+        let mut cur = text.to_string();
+        for &i in order.iter().rev() {
+            let s = &out[i].suggestions()[0];
+            cur = js.apply_suggestion(cur, &out[i], s)?;
+        }
+        Ok::<String, String>(cur)
+    });
+    sess.o();
+    sess.count("js2:fixall");
+    match got {
+        Ok(Ok(g)) if g == want => {}
+        other => sess.fail(
+            "js-fixall-interferes",
+            format!("the {} lints Linter::lint ({}) reports, fixed back to front with apply_suggestion, give {:?}; substituting all at once gives {:?}", order.len(), W25_SETUPS[di % 4], other.map(|r| r.map(|s| trunc(&s, 100))), trunc(&want, 100)),
+            input,
+            Some(case),
+        ),
+    }
+}
+
+fn w25_js_texts(rng: &mut Rng, sents: &[String], n: usize) -> Vec<String> {
+    let typos = ["gardn", "mornng", "teh", "recieve", "the the", "the the the", "an apple an apple", "3 apples", "5 $ 3", "$ 25$", "a  b", "naïve 😀 teh"];
+    let mut v: Vec<String> = vec![
+        "It was the the the end.\n".into(),
+        "It costs 5 $ 3 times a year. Pay me $ 25$ now.".into(),
+        "Ths  tet".into(),
+        "".into(),
+        "# Teh the the title\n\n- an an an apple\n- 😀 the the the\n\n> teh quote the the".into(),
+    ];
+    for i in 0..n {
+        let mut words: Vec<String> = vec![];
+        // every other text: a sentence of more than 40 words (LongSentences covers the others)
+        let target = if i % 2 == 0 { 42 + rng.below(20) } else { 6 + rng.below(20) };
+        while words.len() < target {
+            let sn = sents[rng.below(sents.len())].trim_end_matches(['.', '!', '?']).to_string();
+            words.extend(sn.split(' ').map(|w| w.to_string()));
+            words.push("and".into());
+        }
+        for _ in 0..rng.range(2, 5) {
+            let at = rng.below(words.len());
+            words.insert(at, rng.pick(&typos).to_string());
+        }
+        let mut t = format!("{}.", words.join(" "));
+        match i % 6 {
+            1 => t = format!("# {}\n\n{}\n", rng.pick(sents), t),
+            2 => t = format!("- {}\n- {}\n", t, rng.pick(sents)),
+            3 => t = t.replacen(' ', "\r\n", 3),
+            4 => t = format!("😀 𝒜 {}", t),
+            _ => {}
+        }
+        v.push(t);
+    }
+    v
+}
+
+fn w25_js_stream(sess: &mut Session, rng: &mut Rng, sents: &[String], n: usize) {
+    let texts = w25_js_texts(rng, sents, n);
+    let mut linters: Vec<harper_wasm::Linter> = (0..4).map(w25_js).collect();
+    let mut groups: Vec<LintGroup> = (0..4).map(w25_group).collect();
+    for (i, t) in texts.iter().enumerate() {
+        let di = i % 4;
+        for markdown in [true, false] {
+            w25_eval_js(sess, &mut linters[di], &mut groups[di], di, t, markdown);
+        }
+    }
+}
+
+/// lint lists of real documents under other configurations than stream 4 (Markdown, every rule on, other dialects, user words)
+fn w25_real_lists(sess: &mut Session, rng: &mut Rng, sents: &[String], n: usize) {
+    let mut groups: Vec<LintGroup> = (0..4).map(w25_group).collect();
+    for g in groups.iter_mut() {
+        g.set_all_rules_to(Some(true));
+    }
+    for i in 0..n {
+        let di = i % 4;
+        let dict = w25_dict(di);
+        let mut text = String::new();
+        for k in 0..rng.range(1, 4) {
+            if k > 0 {
+                text.push_str(*rng.pick(&[" ", "\n", "\n\n", " and ", "\r\n"]));
+            }
+            text.push_str(&sents[rng.below(sents.len())]);
+        }
+        let markdown = i % 2 == 0;
+        let Ok(lints) = guarded(|| {
+            let doc = if markdown { Document::new_markdown_default(&text, &dict) } else { Document::new_plain_english(&text, &dict) };
+            groups[di].lint(&doc)
+        }) else {
+            continue;
+        };
+        let spans: Vec<(usize, usize)> = lints.iter().map(|l| (l.span.start, l.span.end)).collect();
+        eval(sess, &spans, if markdown { "real-lints-markdown-all-rules" } else { "real-lints-plain-all-rules" });
+        sess.count(&format!("real-lints-dialect:{:?}", w25_core_dialect(di)));
+    }
+}
+
+/// the CLI on generated files: other front-ends (`.typ`, `.rs`, `.lhs`), `--dialect`, generated texts
+fn w25_cli_stream(sess: &mut Session, ctx: &Ctx, rng: &mut Rng, sents: &[String], n: usize) {
+    let bin = std::path::PathBuf::from(env!("CARGO_MANIFEST_DIR")).join("target").join("lsbin").join("debug").join("harper-cli");
+    if !bin.exists() {
+        sess.count("cli2:not-built(stream skipped)");
+        return;
+    }
+    let dir = ctx.out.join("c13-cli-w25");
+    let _ = std::fs::create_dir_all(&dir);
+    let dict = FstDictionary::curated();
+    let rule_sets: [&[&str]; 3] = [&["RepeatedWords"], &[], &["RepeatedWords", "AnA"]];
+    for i in 0..n {
+        let ext = ["md", "typ", "rs", "lhs", "md", "py"][i % 6];
+        let dialect = [Dialect::American, Dialect::British, Dialect::Canadian, Dialect::Australian][(i / 2) % 4];
+        // a sentence with one word written three or four times
+        let mut words: Vec<String> = sents[rng.below(sents.len())].split(' ').map(|w| w.to_string()).collect();
+        let at = rng.below(words.len());
+        let w = words[at].trim_matches(|c: char| !c.is_alphanumeric()).to_string();
+        if w.is_empty() {
+            continue;
+        }
+        for _ in 0..rng.range(2, 3) {
+            words.insert(at, w.clone());
+        }
+        let prose = format!("{} It was the the the end.", words.join(" "));
+        let text = match ext {
+            "rs" => format!("// {}\nfn main() {{}}\n", prose),
+            "py" => format!("# {}\nx = 1\n", prose),
+            "typ" => format!("= Heading\n{}\n", prose),
+            "lhs" => format!("{}\n\n> main = return ()\n", prose),
+            _ => format!("{}\n", prose),
+        };
+        let file = dir.join(format!("gen{}.{}", i, ext));
+        let _ = std::fs::write(&file, &text);
+        let rules = rule_sets[i % 3];
+        // the document the CLI builds (load_file): by extension
+        let want = guarded(|| {
+            let md = harper_core::parsers::MarkdownOptions::default();
+            let doc = match ext {
+                "md" => Document::new(&text, &harper_core::parsers::Markdown::default(), &dict),
+                "lhs" => Document::new(&text, &harper_literate_haskell::LiterateHaskellParser::new_markdown(md), &dict),
+                "typ" => Document::new(&text, &harper_typst::Typst, &dict),
+                _ => match harper_comments::CommentParser::new_from_filename(&file, md) {
+                    Some(p) => Document::new(&text, &p, &dict),
+                    None => return None,
+                },
+            };
+            let mut g = LintGroup::new_curated(dict.clone(), dialect);
+            if !rules.is_empty() {
+                g.set_all_rules_to(Some(false));
+                for r in rules {
+                    g.config.set_rule_enabled(*r, true);
+                }
+            }
+            Some(g.lint(&doc))
+        });
+        let Ok(Some(mut want)) = want else { continue };
+        let raw_n = want.len();
+        remove_overlaps(&mut want);
+        let mut cmd = std::process::Command::new(&bin);
+        cmd.arg("lint").arg(&file).arg("--dialect").arg(dialect.to_string()).arg("--user-dict-path").arg(dir.join("no_user_dict.txt")).arg("--file-dict-path").arg(dir.join("no_file_dicts"));
+        for r in rules {
+            cmd.arg("--only-lint-with").arg(r);
+        }
+        let Ok(out) = cmd.output() else { continue };
+        let report = format!("{}{}", String::from_utf8_lossy(&out.stdout), String::from_utf8_lossy(&out.stderr));
+        sess.o();
+        sess.count("origin:cli-w25");
+        sess.count(&format!("cli2:.{}:{:?}:{}-rule(s)", ext, dialect, rules.len()));
+        let mut msgs: Vec<String> = want.iter().map(|l| l.message.clone()).collect();
+        msgs.sort();
+        msgs.dedup();
+        for m in msgs {
+            // ariadne wraps nothing, but a message that is a substring of another would be counted twice
+            if want.iter().any(|l| l.message != m && l.message.contains(m.as_str())) {
+                continue;
+            }
+            let expect = want.iter().filter(|l| l.message == m).count();
+            let got = report.matches(m.as_str()).count();
+            if got != expect {
+                sess.fail("cli-overlap", format!("harper-cli lint {:?} (.{}, {:?}) --only-lint-with {:?}: the report carries {:?} {} time(s), remove_overlaps of the group's {} lints keeps {} such lint(s)", text, ext, dialect, rules, m, got, raw_n, expect), json!({"cli_text": text, "ext": ext, "rules": rules, "spans": []}), None);
+            }
+        }
+        if raw_n > want.len() {
+            sess.nontrivial(&format!("cli2|{}|{:?}", text, rules));
+            sess.count("cli2:with-drops");
+        }
+    }
+}
+
+/// all w25 streams; called from `run` after stream 6 (which builds the CLI)
+fn w25_run(sess: &mut Session, ctx: &Ctx, rng: &mut Rng) {
+    let thorough = ctx.tier == Tier::Thorough;
+    let sents = crate::corpus::sentences();
+    let mut r = rng.fork();
+    w25_long_lists(sess, &mut r, if thorough { 400 } else { 40 });
+    w25_real_lists(sess, &mut r, sents, if thorough { 3000 } else { 240 });
+    w25_js_stream(sess, &mut r, sents, if thorough { 800 } else { 44 });
+    w25_cli_stream(sess, ctx, &mut r, sents, if thorough { 60 } else { 6 });
 }
